@@ -352,7 +352,7 @@ int main (int ac,
 	{
 		char out_f_name[1024];
 		EGioFile_t *out_f;
-		sprintf (out_f_name, "%s", solname);
+		snprintf (out_f_name, sizeof (out_f_name), "%s", solname);
 		out_f = EGioOpen (out_f_name, "w");
 		switch (status)
 		{
